@@ -372,6 +372,217 @@ func hasHang(sc []streamScript) bool {
 }
 
 func TestC36(t *testing.T) {
+	t.Run("retry", testRetry)
+	t.Run("concurrent", testConcurrent)
+}
+
+// ---------------------------------------------------------------- concurrent streams
+
+// cserver: several LOGICAL watch streams (told apart by the Appname of the request), each with
+// its own script; the i-th server stream opened for logical stream k behaves as scripts[k][i].
+type cserver struct {
+	pb.UnimplementedCoreRPCServer
+	mu      sync.Mutex
+	scripts [][]streamScript
+	opened  []int
+	reqOK   [][]bool
+	// all logical streams end their FIRST server stream at the same moment
+	barrier chan struct{}
+	arrived int
+}
+
+func (s *cserver) WorkloadStatusStream(req *pb.WorkloadStatusStreamOptions, st pb.CoreRPC_WorkloadStatusStreamServer) error {
+	var k int
+	if _, err := fmt.Sscanf(req.Appname, "s%d", &k); err != nil || k < 0 || k >= len(s.scripts) {
+		return status.Error(codes.InvalidArgument, "unknown logical stream")
+	}
+	s.mu.Lock()
+	i := s.opened[k]
+	s.opened[k]++
+	want := &pb.WorkloadStatusStreamOptions{Appname: fmt.Sprintf("s%d", k), Entrypoint: "entry", Nodename: fmt.Sprintf("node-%d", k), Labels: map[string]string{"k": "v"}}
+	s.reqOK[k] = append(s.reqOK[k], proto.Equal(req, want))
+	sc := streamScript{0, endErr}
+	if i < len(s.scripts[k]) {
+		sc = s.scripts[k][i]
+	}
+	s.mu.Unlock()
+	for j := 0; j < sc.Msgs; j++ {
+		if err := st.Send(&pb.WorkloadStatusStreamMessage{Id: fmt.Sprint(msgID(i, j))}); err != nil {
+			return err
+		}
+	}
+	if i == 0 { // break together
+		s.mu.Lock()
+		s.arrived++
+		if s.arrived == len(s.scripts) {
+			close(s.barrier)
+		}
+		s.mu.Unlock()
+		select {
+		case <-s.barrier:
+		case <-time.After(2 * time.Second):
+		}
+	}
+	if sc.End == endEOF {
+		return nil
+	}
+	return status.Error(codes.Unavailable, "scripted break")
+}
+
+func runConcurrent(max int, scripts [][]streamScript) []observed {
+	lis := bufconn.Listen(1 << 16)
+	srv := &cserver{scripts: scripts, opened: make([]int, len(scripts)), reqOK: make([][]bool, len(scripts)), barrier: make(chan struct{})}
+	gs := grpc.NewServer()
+	pb.RegisterCoreRPCServer(gs, srv)
+	done := make(chan struct{})
+	go func() { _ = gs.Serve(lis); close(done) }()
+	defer func() { gs.Stop(); <-done }()
+	// ONE connection, ONE interceptor for all streams (client/client.go dial)
+	conn, err := grpc.DialContext(context.Background(), "passthrough:///bufnet",
+		grpc.WithTransportCredentials(insecure.NewCredentials()),
+		grpc.WithContextDialer(func(ctx context.Context, _ string) (net.Conn, error) { return lis.DialContext(ctx) }),
+		grpc.WithUnaryInterceptor(interceptor.NewUnaryRetry(interceptor.RetryOptions{Max: max})),
+		grpc.WithStreamInterceptor(interceptor.NewStreamRetry(interceptor.RetryOptions{Max: max})),
+	)
+	out := make([]observed, len(scripts))
+	if err != nil {
+		for k := range out {
+			out[k].Final = "FOther"
+		}
+		return out
+	}
+	defer conn.Close()
+	cli := pb.NewCoreRPCClient(conn)
+	ctx, cancel := context.WithTimeout(context.Background(), 60*time.Second)
+	defer cancel()
+	var wg sync.WaitGroup
+	for k := range scripts {
+		wg.Add(1)
+		go func(k int) {
+			defer wg.Done()
+			req := &pb.WorkloadStatusStreamOptions{Appname: fmt.Sprintf("s%d", k), Entrypoint: "entry", Nodename: fmt.Sprintf("node-%d", k), Labels: map[string]string{"k": "v"}}
+			st, err := cli.WorkloadStatusStream(ctx, req)
+			if err != nil {
+				out[k].Final = classify(err)
+				return
+			}
+			for {
+				m, err := st.Recv()
+				if err != nil {
+					out[k].Final = classify(err)
+					return
+				}
+				var v int64
+				fmt.Sscan(m.Id, &v)
+				out[k].Delivered = append(out[k].Delivered, v)
+			}
+		}(k)
+	}
+	wg.Wait()
+	time.Sleep(40 * time.Millisecond)
+	srv.mu.Lock()
+	for k := range scripts {
+		out[k].Opened = srv.opened[k]
+		out[k].ReqOK = append([]bool(nil), srv.reqOK[k]...)
+	}
+	srv.mu.Unlock()
+	return out
+}
+
+func caseTerm(m string, max int, sc []streamScript, o observed) string {
+	del := make([]string, len(o.Delivered))
+	for k, id := range o.Delivered {
+		del[k] = vh.Pair(vh.Nat(int(id/1000)), vh.Nat(int(id%1000)))
+	}
+	rq := make([]string, len(o.ReqOK))
+	for k, b := range o.ReqOK {
+		rq[k] = vh.Bool(b)
+	}
+	return fmt.Sprintf("(mkCase %s %d %s (mkPlan false None) %s %s %d %s)", m, max, coqScript(sc), vh.List(del), o.Final, o.Opened, vh.List(rq))
+}
+
+func testConcurrent(t *testing.T) {
+	r := vh.New(t, "C36", "concurrent")
+	r.Coq("From Verif Require Import Rpc.Retry.", "Retry.ccase", "Retry.cagree", "Retry.cok")
+	rng := r.Rng
+	E, F := endErr, endEOF
+	type cc struct {
+		max     int
+		scripts [][]streamScript
+	}
+	var cs []cc
+	var kinds []string
+	ss := func(x ...streamScript) []streamScript { return x }
+	// corpus: streams that break at the same moment and need several reopen attempts
+	cs = append(cs, cc{2, [][]streamScript{
+		ss(streamScript{1, E}, streamScript{0, E}, streamScript{0, E}, streamScript{1, E}),
+		ss(streamScript{1, E}, streamScript{0, E}, streamScript{0, E}, streamScript{1, E})}})
+	cs = append(cs, cc{1, [][]streamScript{
+		ss(streamScript{2, E}, streamScript{0, E}, streamScript{1, F}),
+		ss(streamScript{1, F}, streamScript{0, F}, streamScript{2, E}),
+		ss(streamScript{0, E}, streamScript{0, E}, streamScript{3, E})}})
+	cs = append(cs, cc{0, [][]streamScript{ss(streamScript{1, E}, streamScript{1, E}), ss(streamScript{2, F})}})
+	cs = append(cs, cc{2, [][]streamScript{
+		ss(streamScript{1, E}, streamScript{0, E}, streamScript{1, E}),   // needs two attempts
+		ss(streamScript{1, E}, streamScript{0, F}, streamScript{0, E}, streamScript{0, E})}}) // exhausts its own budget
+	kinds = append(kinds, "corpus", "corpus", "corpus", "corpus")
+	n := r.N(8, 80)
+	for i := 0; i < n; i++ {
+		c := cc{max: 1 + rng.Intn(2)}
+		k := 2 + rng.Intn(2)
+		for j := 0; j < k; j++ {
+			var sc []streamScript
+			sc = append(sc, streamScript{rng.Intn(3), ending(rng.Intn(2))})
+			fails := rng.Intn(c.max + 1) // failing reopen attempts within the budget ...
+			if rng.Intn(4) == 0 {
+				fails = c.max + 1 // ... or one too many
+			}
+			for f := 0; f < fails; f++ {
+				sc = append(sc, streamScript{0, ending(rng.Intn(2))})
+			}
+			sc = append(sc, streamScript{1 + rng.Intn(2), ending(rng.Intn(2))})
+			c.scripts = append(c.scripts, sc)
+		}
+		cs = append(cs, c)
+		kinds = append(kinds, "random")
+	}
+	outs := make([][]observed, len(cs))
+	sem := make(chan struct{}, 6)
+	var wg sync.WaitGroup
+	for i := range cs {
+		if r.Only >= 0 && i != r.Only {
+			continue
+		}
+		wg.Add(1)
+		sem <- struct{}{}
+		go func(i int) {
+			defer wg.Done()
+			defer func() { <-sem }()
+			outs[i] = runConcurrent(cs[i].max, cs[i].scripts)
+		}(i)
+	}
+	wg.Wait()
+	for i, c := range cs {
+		if outs[i] == nil {
+			outs[i] = make([]observed, len(c.scripts))
+		}
+		terms := make([]string, len(c.scripts))
+		for k := range c.scripts {
+			terms[k] = caseTerm("MWorkloadStatus", c.max, c.scripts[k], outs[i][k])
+		}
+		desc := map[string]any{"kind": kinds[i], "max": c.max, "scripts": c.scripts, "observed": outs[i]}
+		r.Count("kind=" + kinds[i])
+		r.Count(fmt.Sprintf("streams=%d", len(c.scripts)))
+		r.Count(fmt.Sprintf("max=%d", c.max))
+		for k := range c.scripts {
+			r.Count("final=" + outs[i][k].Final)
+		}
+		r.Add(vh.List(terms), desc, map[string]any{"stream": "concurrent", "streams": len(c.scripts), "max": c.max}, true)
+	}
+	r.Finish("2-3 watch streams (WorkloadStatusStream with distinct requests) opened at the same time through ONE connection and ONE NewStreamRetry interceptor; every logical stream has its own server script, all end their first server stream at the same moment (barrier) and then need 0..Max (sometimes Max+1) failing reopen attempts before a stream that delivers again; each stream's delivered messages, final error, server streams and re-sent requests are compared with the single-stream model (independence)")
+}
+
+func testRetry(t *testing.T) {
 	r := vh.New(t, "C36", "retry")
 	r.Coq("From Verif Require Import Rpc.Retry.", "Retry.case", "Retry.agree", "Retry.ok")
 	rng := r.Rng
